@@ -1,7 +1,7 @@
 """Per-property configuration of ./check: Lean modules, correspondence streams, oracles, and the
 texts that go into MANIFEST.json (regenerate with ./mkmanifest.py)."""
 
-HOOK_COMMITS = ["42d3529", "6304aea"]
+HOOK_COMMITS = ["42d3529", "6304aea", "b625c0d"]
 NOT_APPLICABLE = {}
 
 PROPS = {
@@ -104,6 +104,24 @@ PROPS = {
         "note": "Known finding (by design of the two-pass emission around PLTE): a kept chunk of {bKGD,hIST,tRNS,fcTL} that precedes other pre-IDAT chunks is emitted after them; any other reordering is a violation.",
         "technique": "Lean 4 proof (policy and serialiser as list functions) + correspondence + e2e policy oracle",
         "rule": "generated files with specification-conformant chunk multisets (before PLTE / between PLTE and IDAT / after IDAT, known, private, unsafe-to-copy, C2PA) x {None,Safe,All,Strip(list),Keep(list)} x other options",
+    },
+    "C09": {
+        "lean": ["OxiModel.Props.C09"],
+        "needs_binary": True,
+        "streams": [{"name": "corr-cli", "quick": 250, "thorough": 4000}],
+        "oracles": [{"name": "oracle-cli", "quick": 200, "thorough": 3000}],
+        "claim": "Lean 4 theorems about the flag translation (parse_opts_into_struct + Options::from_preset) for all flag records: the preset table equals the manual's for every level (decide over the whole "
+                 "finite table), presets touch only three fields, explicit -f / --zc / --fast / -i override any preset (the model has no notion of argument order), --nx implies keep-interlacing unless -i "
+                 "is given and switches the four reductions off, the switch flags, the strip/keep policy table incl. the forbidden names; exit status = 0 if any ok else 1 if any failed else 3 (proved against "
+                 "the fold in main); directories are descended only with --recursive and nested files filtered by extension. The REAL executable is run on generated flag vectors in shuffled order: the options "
+                 "it parsed (dump hook) must equal the model's; its output must be byte-identical to optimize_from_memory called with those options and be delivered in place / --out / --dir/<name> / "
+                 "stdout (nothing else on that stream) / nowhere (--pretend); exit statuses over mixed file sets and directory recursion are compared with the model.",
+        "note": "Partial: clap itself (C1), process exit plumbing and log routing are runtime; they are exercised by the real binary, not proved. stdin input is not generated.",
+        "technique": "Lean 4 proof (decision tables, decide over finite preset table) + real-binary correspondence and routing oracle",
+        "partial_note": "clap / process plumbing are outside the model",
+        "rule": "flag vectors over -o{0..6,max} -f{single,range,list} -a --scale16 --fast --force --fix --nb --nc --np --ng --nx --nz -i{0,1,keep} -s --strip{safe,all,list} --keep{list,display} -Z --zi --zc, "
+                "argument groups shuffled; routing in {in place,--out,--dir,--stdout,--pretend}; file sets mixing valid / invalid / C2PA files; directory trees with .png/.PNG/.apng/.txt/.jpeg; "
+                "distinct = distinct (flags) / (input, arguments)",
     },
     "C10": {
         "lean": ["OxiModel.Props.C10"],
